@@ -14,8 +14,25 @@ import snaxrun
 from framework import Prop, CaseTimeout
 
 FIXED_F03 = True  # the committed model is the code WITH fixes/F03-changeforstep-ceil.diff
-# proposed fixes that are NOT in /repo: set C17_FIXES=FC17a,FC17b to check a tree that has them applied
-PROPOSED = {x.strip() for x in os.environ.get("C17_FIXES", "").split(",") if x.strip()}
+# fixes FC17a / FC17b: the model variant of the FIXED code is used when the finding is listed as fixed in known_findings.d/C17.json
+# (they are in /repo since 85c92b8 / ea0f265); C17_FIXES=… overrides, e.g. C17_FIXES=none to check a tree without them
+
+
+def _fixed_c17():
+    env = os.environ.get("C17_FIXES")
+    if env is not None:
+        return {x.strip() for x in env.split(",") if x.strip() and x.strip() != "none"}
+    import json
+    f = os.path.join(os.path.dirname(os.path.dirname(os.path.dirname(os.path.abspath(__file__)))), "known_findings.d", "C17.json")
+    try:
+        ents = json.load(open(f))["findings"]
+    except Exception:
+        return set()
+    m = {"DC17a": "FC17a", "DC17b": "FC17b"}
+    return {m[e["id"]] for e in ents if e.get("status") == "fixed" and e["id"] in m}
+
+
+PROPOSED = _fixed_c17()
 
 RULES = {"ChangeForStep": "changeStep", "MergeForLoops": "merge", "LoopHoistPureOperations": "hoist",
          "MoveMemrefDims": "moveDim", "dce": "dce"}
